@@ -312,7 +312,22 @@ def run_eig(case):
             return discard("forward_convergence_warning", labels)
         if not lx.requires_grad:
             return violation("no_graph", "loss of symeig outputs does not require grad although %d leaves do" % len(wrt), labels)
-        got = xt_call(torch.autograd.grad, lx, wrt, create_graph=(order == 2), allow_unused=True, _where="backward")
+        got = xt_call(torch.autograd.grad, lx, wrt, create_graph=(order == 2), retain_graph=True, allow_unused=True, _where="backward")
+        # the pull-back is linear in the cotangent: the same loss in other units (x 1e-9, x 1e6) must give the same gradient in those
+        # units (a backward that compares cotangents with absolute thresholds is not)
+        sc_units = float(case.get("units", 1.0))
+        if sc_units != 1.0:
+            got_u = xt_call(torch.autograd.grad, lx * sc_units, wrt, retain_graph=True, allow_unused=True, _where="backward")
+            # rounding floor: gradients that are zero up to rounding (1e-16 of the loss scale) need not scale
+            # (the loss is built from O(1) eigenvalues and O(1) weights: its natural scale is 1)
+            floor = 1e-10 * abs(sc_units)
+            for gk, gu, nm in zip(got, got_u, ns.names):
+                a = torch.zeros(()) if gk is None else gk.detach() * sc_units
+                b = torch.zeros(()) if gu is None else gu.detach()
+                if (gk is None) != (gu is None) or maxabs(a - b) > 1e-6 * maxabs(a) + floor:
+                    return violation("grad_not_linear_in_cotangent", "gradient w.r.t. %s of the loss times %g is not %g times the gradient of the loss: max |diff| %.3e, "
+                                     "|expected| %.3e" % (nm, sc_units, sc_units, maxabs(a - b), maxabs(a)), labels + ["units=%g" % sc_units])
+            labels = labels + ["units=%g" % sc_units]
     # ---------------------------------------------------------------- tolerances
     gap_lam = min([abs(lam[i] - lam[j]) for i in sel_idx for j in range(n) if lam[i] != lam[j]] or [1.0])
     gap = gap_lam * p.gapscale
@@ -712,6 +727,7 @@ def eig_case_st(draw, tier="quick", known=()):
             "aop": aop, "mop": mop, "method": method, "neig": neig, "mode": mode, "bck": bck,
             "structure": draw(st.sampled_from(["generic"] * 5 + ["diag"])),
             "wrt": draw(st.sampled_from(["AM", "AM", "A", "M"])), "use_vec": draw(st.sampled_from([True, True, True, False])),
+            "units": draw(st.sampled_from([1.0, 1.0, 1.0, 1e-9, 1e-11, 1e6])),
             "order": order, "seed": draw(st.integers(0, 2 ** 31 - 1))}
 
 
